@@ -153,7 +153,11 @@ def doOp (w : World) (op : Json) : P (World × Json) := do
       let rc : RunCfg := { maxCycle := maxC, retErr, cancelAt, order := orderOf op }
       let cfg := mkCfg memo genTab Gen.setNumberCells factMethods inst.wm
       let r := execute rc cfg inst st
-      let res := Json.mkObj [("out", outcomeJ r.outcome), ("trace", .arr (r.trace.map tevJ).toArray),
+      -- the from-scratch semantics on the same call (property oracle)
+      let rs := execute rc { cfg with memo := false } inst st
+      let spec := Json.mkObj [("out", outcomeJ rs.outcome), ("trace", .arr (rs.trace.map tevJ).toArray),
+        ("store", storeJ rs.store)]
+      let res := Json.mkObj [("spec", spec), ("out", outcomeJ r.outcome), ("trace", .arr (r.trace.map tevJ).toArray),
         ("polls", (r.polls : Nat)), ("store", storeJ r.store), ("calls", callsJ r.log),
         ("memo", Json.mkObj [("E", sortedSnaps (r.inst.memoE.map (·.1))), ("A", sortedSnaps (r.inst.memoA.map (·.1)))]),
         ("retracted", .arr ((r.inst.entries.filter (fun e => r.inst.retracted.contains e.rule.name)).map (·.rule.name)
@@ -168,7 +172,11 @@ def doOp (w : World) (op : Json) : P (World × Json) := do
       let memo := fieldOpt op "spec" != some (.bool true)
       let cfg := mkCfg memo genTab Gen.setNumberCells factMethods inst.wm
       let r := fetch retErr none cfg inst st
-      let res := Json.mkObj [("out", outcomeJ r.outcome),
+      let rs := fetch retErr none { cfg with memo := false } { inst with retracted := [] } st
+      let spec := Json.mkObj [("out", outcomeJ rs.outcome),
+        ("rules", .arr (rs.rules.map (fun e => Json.arr #[jstr e.rule.name, jint e.rule.salience])).toArray),
+        ("store", storeJ rs.store)]
+      let res := Json.mkObj [("spec", spec), ("out", outcomeJ r.outcome),
         ("rules", .arr (r.rules.map (fun e => Json.arr #[jstr e.rule.name, jint e.rule.salience])).toArray),
         ("store", storeJ r.store)]
       pure ({ w with insts := assocSet (get "inst") r.inst w.insts }, res)
